@@ -37,6 +37,9 @@ type SecureAead struct {
 	secret []byte
 	aead   cipher.AEAD
 	nonce  []byte
+	// rest holds the part of the last opened frame that did not fit into
+	// the reader's buffer
+	rest []byte
 }
 
 const (
@@ -117,6 +120,11 @@ func (sa *SecureAead) increaseNonce() {
 	}
 }
 func (sa *SecureAead) Read(b []byte) (n int, err error) {
+	if len(sa.rest) > 0 {
+		n = copy(b, sa.rest)
+		sa.rest = sa.rest[n:]
+		return
+	}
 	frame := make([]byte, secureConnFrameSize)
 	_, err = io.ReadFull(sa.conn, frame[:secureConnHeaderSize])
 	if err != nil {
@@ -135,7 +143,9 @@ func (sa *SecureAead) Read(b []byte) (n int, err error) {
 	}
 	sa.increaseNonce()
 
-	copy(b, frame[:n])
+	fn := n
+	n = copy(b, frame[:fn])
+	sa.rest = frame[n:fn]
 	return
 }
 
